@@ -302,6 +302,7 @@ int hx_run(const hx_script *s, hx_obs *o) {
             }
             case OP_FREED: hx_in_lib = 1; htp_connp_tx_freed(c); hx_in_lib = 0; break;
             case OP_EPOCH: vclk_sec = (long) op->n; vclk_usec = 0; break;
+            case OP_USEC: vclk_usec = (long) op->n % 1000000; break;
             case OP_CLOCK: vclk_jump_at = vclk_calls + 1 + (long) (op->n >> 24); vclk_jump_us = (long) (op->n & 0xffffff) * 1000; break;
         }
         if (hx_live_bytes > o->max_live_bytes) o->max_live_bytes = hx_live_bytes;
